@@ -397,6 +397,10 @@ impl Installation {
         {
             let mut index_manager = self.index_manager.write().await;
             index_manager.add_entry(&encoding_key, archive_id, archive_offset, size)?;
+
+            // Persist the updated index so the object is still found after the
+            // installation is closed and reopened (DynamicContainer::write does the same)
+            index_manager.save_all()?;
         }
 
         info!(
